@@ -160,9 +160,10 @@ class FlushArchive(Contract):
     props = ("C15", "C07", "C08")
     abstract = True
     stable_attrs = ("header", "files_info", "main_streams", "packinfo", "files", "last_file_index", "packsizes", "crcs", "digestdefined", "packsize", "digest", "unpacksizes")
-    noraise = ("get_compressor", "append", "len")
-    frame_preserving = ("get_compressor", "append", "len")
-    assumptions = ("list.append does not raise; compressor.flush(fp) may raise (source of the folder is the codec)",)
+    noraise = ("get_compressor", "append", "len", "get")
+    frame_preserving = ("get_compressor", "append", "len", "get")
+    pure = ("get",)
+    assumptions = ("list.append and dict.get do not raise and dict.get modifies nothing; compressor.flush(fp) may raise (source of the folder is the codec)",)
 
     def setup(self, c):
         return {"self_": c.opq("self"), "fp": c.opq("fp"), "folder": c.opq("folder")}
